@@ -22,7 +22,7 @@ import (
 
 func init() {
 	register(&Check{ID: "C11", Level: "exploration",
-		Rule: "generated entry lists (full:/domain:/bare/regexp:, parents, children, duplicates, labels of 1..63 arbitrary octets, root) loaded in several orders; " +
+		Rule: "generated entry lists (full:/domain:/bare/regexp:, parents, children, duplicates, labels of 1..63 arbitrary octets, root) loaded in several orders (regexp entries include inline flag groups, upper-case literals and top-level alternation); " +
 			"each (list, order, probe name) triple is one evaluation; a case is non-trivial and distinct by (sorted entry set, probe name) when the reference says the probe matches or the probe shares a label suffix with some entry",
 		Run: runC11})
 }
@@ -260,7 +260,16 @@ func c11GenRegexp(r *gen.R, base [][]byte) string {
 		}
 		return gen.Pick(r, []string{"a", "b", "ab", "com", "www", "example", "x"})
 	}
-	switch r.Intn(6) {
+	switch r.Intn(9) {
+	case 6: // an inline flag group at the start of the expression: it belongs to this entry alone
+		return gen.Pick(r, []string{"(?i)", "(?i)", "(?s)", "(?U)", "(?m)"}) + "^" + strings.ToUpper(lit()) + `\.`
+	case 7: // upper-case literals / classes: matched against the lower-cased text form such an entry matches nothing by itself
+		if r.Bool() {
+			return "^" + strings.ToUpper(lit()) + `\.`
+		}
+		return `^[A-Z0-9]+\.` + lit() + "$"
+	case 8: // alternation at the top level of one entry
+		return lit() + "$|^" + lit() + `\.`
 	case 0:
 		return "^" + lit() + `\.` + lit() + "$"
 	case 1:
